@@ -25,7 +25,7 @@ from typing import Any, Dict, List, Tuple
 
 from .. import tlc
 from ..common import Ctx, MachineryError, rng, scratch_dir
-from ..values import ALL_TYPES, FLOAT_DECIMALS, FLOAT_TYPES, NAN, NULL, conc, concretisable, same
+from ..values import ALL_TYPES, FLOAT_DECIMALS, FLOAT_TYPES, NAN, NULL, SCHEMA_TYPE, conc, concretisable, same
 
 LEVEL = "model_checking"
 
@@ -67,7 +67,7 @@ def _schema(types: Dict[str, str]) -> Any:
     from datashard import Schema
 
     ids = {"a": 1, "b": 2}
-    fields = [{"id": ids[c], "name": c, "type": types[c], "required": False} for c in sorted(types)]
+    fields = [{"id": ids[c], "name": c, "type": SCHEMA_TYPE.get(types[c], types[c]), "required": False} for c in sorted(types)]
     fields.append({"id": 9, "name": "rid", "type": "long", "required": True})
     return Schema(schema_id=1, fields=fields)
 
@@ -221,13 +221,21 @@ def _e2e(ctx: Ctx, cases: List[Dict[str, Any]], type_list: List[str], max_filter
                                   f"scan(filter={fd!r}) on a {t} column returns {len(got_p)} rows with pruning and {len(got_u)} without; "
                                   f"lost row ids {missing[:5]} (file {fk0})",
                                   {"mode": "e2e", "type": t, "filter": repr(fd), "with_pruning": got_p, "without": got_u})
-                if t == "float":
+                if t in ("float", "date", "timestamp"):
                     # the same filter with the literals written as the DECIMALS a user would type (0.1, not f32(0.1)):
                     # as doubles they differ from every stored float32, and the engine's own treatment of them differs
                     # per operator (comparisons promote to double, is_in casts the set to float32) - whatever the
                     # engine answers, pruning must not change it.  No reference oracle here: pruned vs. unpruned only.
+                    # Likewise for temporal columns: a date column filtered with a datetime literal (noon of that day) and a
+                    # timestamp column filtered with a date literal.
                     def dec(v: Any) -> Any:
-                        if isinstance(v, float) and v == v:
+                        import datetime as _dt
+
+                        if t == "date" and isinstance(v, _dt.date) and not isinstance(v, _dt.datetime):
+                            return _dt.datetime.combine(v, _dt.time(12, 0))
+                        if t == "timestamp" and isinstance(v, _dt.datetime):
+                            return v.date()
+                        if t == "float" and isinstance(v, float) and v == v:
                             for i_, x_ in enumerate(_F32_VALUES):
                                 if x_ == v:
                                     return FLOAT_DECIMALS[i_]
@@ -238,20 +246,28 @@ def _e2e(ctx: Ctx, cases: List[Dict[str, Any]], type_list: List[str], max_filter
                            for c_, o_ in fd.items()}
                     if repr(fd2) != repr(fd):
                         filters_mod.prune_files_by_bounds = real_prune
-                        got_p2 = sorted(x["rid"] for x in tbl.scan(filter=fd2, verify_checksums=False))
+                        def scan2() -> Any:
+                            try:
+                                return sorted(x["rid"] for x in tbl.scan(filter=fd2, verify_checksums=False))
+                            except Exception as e_:  # noqa: BLE001 - the engine may refuse a cross-type literal
+                                return f"raises {type(e_).__name__}"
+
+                        got_p2 = scan2()
                         filters_mod.prune_files_by_bounds = lambda data_files, expressions, schema: data_files
                         try:
-                            got_u2 = sorted(x["rid"] for x in tbl.scan(filter=fd2, verify_checksums=False))
+                            got_u2 = scan2()
                         finally:
                             filters_mod.prune_files_by_bounds = real_prune
                         total += 1
                         ctx.count_case(("e2e-decimal", t, fkey), nontrivial=True)
-                        if got_p2 != got_u2:
-                            missing = sorted(set(got_u2) - set(got_p2))
+                        if isinstance(got_u2, str):
+                            pass        # without pruning the engine refuses the literal: there is no answer for pruning to change
+                        elif got_p2 != got_u2:
+                            missing = sorted(set(got_u2) - set(got_p2)) if not isinstance(got_p2, str) else got_p2
                             ops = "+".join(e["op"] for e in case["exprs"])
-                            ctx.violation(f"prune-unsound:{ops}:decimal-literal:float32",
-                                          f"scan(filter={fd2!r}) on a float (32-bit) column returns {len(got_p2)} rows with pruning and {len(got_u2)} without; "
-                                          f"lost row ids {missing[:5]}",
+                            ctx.violation(f"prune-unsound:{ops}:{'decimal-literal:float32' if t == 'float' else 'cross-temporal-literal:' + t}",
+                                          f"scan(filter={fd2!r}) on a {t} column returns {got_p2 if isinstance(got_p2, str) else len(got_p2)} rows with pruning and {len(got_u2)} without; "
+                                          f"lost row ids {missing[:5] if isinstance(missing, list) else missing}",
                                           {"mode": "e2e-decimal", "type": t, "filter": repr(fd2), "with_pruning": got_p2, "without": got_u2})
                 if got_p != got_u:
                     pass
@@ -286,11 +302,11 @@ def run(ctx: Ctx) -> None:
     cases = [json.loads(line) for line in open(out)]
     if len(cases) != res.distinct:
         raise MachineryError(f"exported {len(cases)} cases but TLC checked {res.distinct} states")
-    types = ALL_TYPES
+    types = ALL_TYPES + ["longstring"]
     n, drift = _direct(ctx, cases, types)
     ctx.cov["direct_decisions"] = n
     ctx.cov["model_drift_notes"] = drift
-    e2e_types = ["double", "float", "long", "string"] if quick else ALL_TYPES
+    e2e_types = ["double", "float", "long", "string", "longstring", "date"] if quick else ALL_TYPES + ["longstring"]
     n2 = _e2e(ctx, cases, e2e_types, max_filters=25 if quick else 10 ** 6, seed=ctx.seed)
     ctx.cov["e2e_scans_compared"] = n2
     ctx.count_traces(n + n2)
